@@ -507,7 +507,7 @@ def copyable_lend(ctx):
 
 def starred_name_reuse(ctx):
     """`*a, a = xs`, `a, *a = xs`, `a, *a, a = xs` for arrays, tuples and sized iterables: Python binds the targets left to right.
-    /repo binds the starred target last (checker and compiler) — known deviation; every probe has its own key `input:starred-name <pattern> = <rhs>`, the six failing ones are listed in known_findings.json."""
+    /repo bound the starred target last until 535d821 (repaired: pattern order); kept as regression probes, every probe has its own key `input:starred-name <pattern> = <rhs>` (none is known any more)."""
     progs = []
     for rhs, n in (("array(1, 2, 3)", 3), ("(1, 2, 3)", 3), ("range(3)", 3)):
         progs.append((f"@guppy\ndef main() -> int:\n    *a, a = {rhs}\n    return a\n", f"*a, a = {rhs}"))
